@@ -394,28 +394,19 @@ def call_arg(fn, callee_suffix, argidx, nth=0):
 
 P = lambda src, name, ty="num": (src, name, ty)
 
-LEAVES = [
-    # ---- _dns.py
-    ("Dns", "is_expired", "_dns.py", "DNSRecord.is_expired", ("ret",),
-     [P("self.created", "created"), P("self.ttl", "ttl"), P("now", "now")], "bool", {}),
-    ("Dns", "is_stale", "_dns.py", "DNSRecord.is_stale", ("ret",),
-     [P("self.created", "created"), P("self.ttl", "ttl"), P("now", "now")], "bool", {}),
-    ("Dns", "is_recent", "_dns.py", "DNSRecord.is_recent", ("ret",),
-     [P("self.created", "created"), P("self.ttl", "ttl"), P("now", "now")], "bool", {}),
-    ("Dns", "get_expiration_time", "_dns.py", "DNSRecord.get_expiration_time", ("ret",),
-     [P("self.created", "created"), P("self.ttl", "ttl"), P("percent", "percent")], "num", {}),
-    ("Dns", "get_remaining_ttl", "_dns.py", "DNSRecord.get_remaining_ttl", ("inline",),
-     [P("self.created", "created"), P("self.ttl", "ttl"), P("now", "now")], "num", {"floor": True}),
-    # other.ttl > self.ttl / 2   (the `self == other` conjunct is the identity test, modelled by C20)
-    ("Dns", "suppressed_by_answer_ttl", "_dns.py", "DNSRecord._suppressed_by_answer", ("ret_conj", "ttl"),
-     [P("self.ttl", "ttl"), P("other.ttl", "other_ttl")], "bool", {}),
-    ("Dns", "rrset_suppresses_ttl", "_dns.py", "DNSRRSet.suppresses", ("last_ret",),
-     [P("record.ttl", "ttl"), P("other.ttl", "other_ttl")], "bool", {}),
-    ("Dns", "class_of", "_dns.py", "DNSEntry._set_class", ("assign", "self.class_", 0),
-     [P("class_", "class_")], "num", {"nat": True}),
-    ("Dns", "unique_of", "_dns.py", "DNSEntry._set_class", ("assign", "self.unique", 0),
-     [P("class_", "class_")], "bool", {"nat": True}),
-]
+
+def load_leaves():
+    """leaf specs live in tools/leaves/*.py, one file per area, each defining LEAVES"""
+    import importlib.util
+
+    out = []
+    for f in sorted((HERE / "leaves").glob("*.py")):
+        spec = importlib.util.spec_from_file_location("leaves_" + f.stem, f)
+        m = importlib.util.module_from_spec(spec)
+        spec.loader.exec_module(m)
+        out.extend(m.LEAVES)
+    return out
+
 
 # identity field lists (C20): class -> extracted tuple
 IDENT_CLASSES = ["DNSQuestion", "DNSAddress", "DNSHinfo", "DNSPointer", "DNSText", "DNSService", "DNSNsec"]
@@ -658,7 +649,7 @@ def gen(repo, outdir, selftest_out=None):
     # ---- leaves
     by_mod = {}
     selftests = []
-    for mod, lname, rel, qual, loc, params, rty, opts in LEAVES:
+    for mod, lname, rel, qual, loc, params, rty, opts in load_leaves():
         t = tree(rel)
         fenv = per_file.get(rel, (cenv, {}))[0] if rel in per_file else module_consts(t, cenv)[0]
         try:
